@@ -110,7 +110,7 @@ func C10(r *vf.Run) {
 		}
 		// the name is the caller's business (a file name, usually): it says nothing about the bytes
 		name := []string{"c10", "game.sfc", "game.smc", "GAME.SWC", "x.fig", "rom.bin", "", "a.b.smc", "/tmp/dir.smc/game"}[g.Intn(9)]
-		rom, err := snes.NewROM(name, img)
+		rom, err := newROMAnyWay(g.Intn(4), name, img)
 		if err != nil {
 			r.Fail("newrom", err.Error(), nil)
 			return
@@ -366,7 +366,7 @@ func C10(r *vf.Run) {
 			for k := 0; k < 100 && !r.TooMany(); k++ {
 				nb := 2 + g.Intn(6)
 				img := g.Bytes(nb * 0x8000)
-				rom, err := snes.NewROM("c10m", img)
+				rom, err := newROMAnyWay(g.Intn(4), "c10m", img)
 				if err != nil {
 					r.Fail("newrom", err.Error(), nil)
 					continue
